@@ -50,7 +50,11 @@
      version_section_pin, well_section_pin, curves_section_pin, params_section_pin
                               Writer.title_line + Writer.section_lines over Writer.standardize-d items
                                                                     = the block of writer.write that emits each header section
-                              (FuncsPinInspect, FuncsPinEngine, FuncsPinParseSection, FuncsPinWriteHeader: not re-exported here)
+     line_splitter_pin        DataRead.split_line                  = what reader.define_line_splitter returns
+     open_with_codecs_pin     Channels.open_with_codecs (choose_encoding, io_open_text)
+                                                                    = reader.open_with_codecs over the model's world
+                              (FuncsPinInspect, FuncsPinEngine, FuncsPinParseSection, FuncsPinWriteHeader, FuncsPinCodecs: not
+                               re-exported here)
 
    One file per pinned function or group (FuncsPinConfigure, FuncsPinSectionType, FuncsPinRoute,
    FuncsPinSectionParse, FuncsPinItems, FuncsPinStandardize, FuncsPinWriter, FuncsPinNum, FuncsPinParser, FuncsPinParserInit,
